@@ -276,18 +276,19 @@ let dectree ic =
        | None -> print_endline "MALFORMED")
   done with End_of_file -> ())
 
-let c03 ic =
-  let id = ref 0 and w = ref (n_of_int 64) in
-  let ctx = ref Writer.init and sp = ref WSpec.sinit in
-  let trap = false in   (* the harness is a release build without overflow checks *)
-  let big s = n_of_hex (Printf.sprintf "%x" (int_of_string s)) in
-  let wop_of = function
+let big s = n_of_hex (Printf.sprintf "%x" (int_of_string s))
+let wop_of = function
     | ["BOOL"; v] -> Some (Writer.OBool (big v)) | ["NULL"] -> Some Writer.ONull
     | ["I32"; z] -> Some (Writer.OI32 (z_of_string z)) | ["F64"; b] -> Some (Writer.OF64 (n_of_hex b))
     | ["STR"; h] -> Some (Writer.OStr (nlist_of_hex h)) | ["ISTR"; i] -> Some (Writer.OIStr (big i))
     | ["SOBJ"; n] -> Some (Writer.OStartObj (big n)) | ["FOBJ"] -> Some Writer.OFinObj
     | ["SARR"; n] -> Some (Writer.OStartArr (big n)) | ["FARR"] -> Some Writer.OFinArr
-    | _ -> None in
+    | _ -> None
+
+let c03 ic =
+  let id = ref 0 and w = ref (n_of_int 64) in
+  let ctx = ref Writer.init and sp = ref WSpec.sinit in
+  let trap = false in   (* the harness is a release build without overflow checks *)
   (try while true do
     let line = input_line ic in
     match split line with
@@ -321,6 +322,86 @@ let c03 ic =
              Printf.printf "S %d ST %d %s\n" !id (int_of_n st) (digest (WSpec.flatten s')))
   done with End_of_file -> ())
 
+
+(* ---------------- C12 / C13 / C14: per-thread context, threads ---------------- *)
+let keys = [| "foo"; "bar"; "k0"; "k1"; "a"; "title" |]
+let nlist_of_string s = L.init (St.length s) (fun i -> n_of_int (Char.code (St.get s i)))
+
+let step_of toks : Context.step =
+  let sc s = if s = "g" then None else Some (n_of_int (int_of_string s)) in
+  match toks with
+  | ["INIT"; h] -> Context.SInit (nlist_of_hex h)
+  | "R" :: rest -> (match rop_of_line (St.concat " " rest) with Some op -> Context.SRead op | None -> failwith "ctx: bad read")
+  | ["RIPROP"; s; i] -> Context.SReadIProp (sc s, big i)
+  | "W" :: rest -> (match wop_of rest with Some op -> Context.SWrite op | None -> failwith "ctx: bad write")
+  | ["STRDEST"; n] -> Context.SStrDest (big n) | ["STRCOPY"; h] -> Context.SStrCopy (nlist_of_hex h)
+  | ["ISTR"; i] -> Context.SIStr (big i)
+  | ["INTERNDEST"; n] -> Context.SInternDest (big n) | ["INTERNCOPY"; h] -> Context.SInternCopy (nlist_of_hex h)
+  | ["LOGPLAN"; n] -> Context.SLogPlan (big n) | ["LOGCOPY"; h] -> Context.SLogCopy (nlist_of_hex h)
+  | ["LOAD"; k] -> Context.SLoad (nlist_of_string keys.(int_of_string k))
+  | ["FIN"] -> Context.SFinalize | ["VIEW"] -> Context.SView | ["OUT"] -> Context.SOut
+  | _ -> failwith ("ctx: bad step " ^ St.concat " " toks)
+
+let show_obs w erase (o : Context.obs) : string =
+  let st r = match r with Writer.WOk -> "0" | Writer.WErr c -> string_of_int (int_of_n c) | Writer.WPanic _ -> "PANIC" in
+  match o with
+  | Context.ObUnit -> "UNIT"
+  | Context.ObRead r -> show_out w r
+  | Context.ObW r -> (match r with Writer.WPanic _ -> "PANIC" | _ -> "ST " ^ st r)
+  | Context.ObDest (r, _) -> (match r with Writer.WPanic _ -> "PANIC" | _ -> "DEST " ^ st r)
+  | Context.ObIntern (i, _) -> if erase then "ID *" else Printf.sprintf "ID %d" (int_of_n i)
+  | Context.ObId i -> if erase then "ID *" else Printf.sprintf "ID %d" (int_of_n i)
+  | Context.ObPlan p -> Printf.sprintf "PLAN %d %d %d %s %d" (int_of_nat p.Ring.p_so) (int_of_nat p.Ring.p_d1) (int_of_nat p.Ring.p_n1)
+      (match p.Ring.p_d2 with None -> "null" | Some d -> string_of_int (int_of_nat d)) (int_of_nat p.Ring.p_n2)
+  | Context.ObFin (s, b) -> Printf.sprintf "FIN %d %s" (int_of_n s) (digest b)
+  | Context.ObBytes b -> "BYTES " ^ digest b
+  | Context.ObBadRef -> "BADREF"
+
+let ctxrun ic =
+  let id = ref 0 and w = ref (n_of_int 64) and kind = ref "c14" and cap = ref (nat_of_int 1001) in
+  let trap = false in
+  let g = Threads.ret_area_global_of StaticsGen.statics in
+  let world = ref (Threads.w0 (nat_of_int 1001)) in
+  let solo : (int, Threads.world) Hashtbl.t = Hashtbl.create 8 in
+  let base : (int, int) Hashtbl.t = Hashtbl.create 8 in
+  (try while true do
+    let line = input_line ic in
+    match split line with
+    | ["CASE"; k; ww; kd; c] ->
+        id := int_of_string k; w := n_of_int (int_of_string ww); kind := kd; cap := nat_of_int (int_of_string c);
+        world := Threads.w0 !cap; Hashtbl.reset solo; Hashtbl.reset base
+    | ["END"] | [] -> ()
+    | "T" :: tid :: toks ->
+        let t = int_of_string tid in
+        let tn = n_of_int t in
+        let stp = step_of toks in
+        (* model: the shared world, the return area placed as the generated table says *)
+        let c_before = !world.Threads.th tn in
+        let (w', o) = Threads.wstep !w trap !cap g !world tn stp in
+        world := w';
+        Printf.printf "M %d %d %s\n" !id t (show_obs !w false o);
+        (* spec: this thread alone (c14), restarted on a fresh thread at every INIT (c13),
+           ids replaced by the bytes they stand for (c12) *)
+        let sw = match Hashtbl.find_opt solo t with Some x -> x | None -> Threads.w0 !cap in
+        let sw = if !kind = "c13" && (match stp with Context.SInit _ -> true | _ -> false) then Threads.w0 !cap else sw in
+        (match stp with Context.SInit _ -> Hashtbl.replace base t (L.length c_before.Context.cint.Interner.spans) | _ -> ());
+        let shift i = let b = (try Hashtbl.find base t with Not_found -> 0) in let v = int_of_n i - b in n_of_int (if v < 0 then 1000000 else v) in
+        let stp' = if !kind = "c13" then
+          (match stp with
+           | Context.SIStr i -> Context.SIStr (shift i)
+           | Context.SReadIProp (sc, i) -> Context.SReadIProp (sc, shift i)
+           | _ -> stp)
+        else if !kind <> "c12" then stp else
+          (match stp with
+           | Context.SIStr i -> (match Interner.iget c_before.Context.cint i with Some b -> Context.SWrite (Writer.OStr b) | None -> stp)
+           | Context.SReadIProp (sc, i) -> (match Interner.iget c_before.Context.cint i with Some b -> Context.SRead (ReadRun.RProp (sc, b)) | None -> stp)
+           | _ -> stp) in
+        let (sw', so) = Threads.wstep !w trap !cap false sw tn stp' in
+        Hashtbl.replace solo t sw';
+        Printf.printf "S %d %d %s\n" !id t (show_obs !w (!kind = "c13") so)
+    | _ -> failwith ("ctx: bad line " ^ line)
+  done with End_of_file -> ())
+
 let () =
   let comp = Sys.argv.(1) in
   let ic = if Array.length Sys.argv > 2 then open_in Sys.argv.(2) else stdin in
@@ -328,6 +409,7 @@ let () =
   | "c01" | "c08" | "c11" -> c01 ic
   | "c02" | "c03" -> c03 ic
   | "dectree" -> dectree ic
+  | "c12" | "c13" | "c14" -> ctxrun ic
   | "c05" -> c05 ic
   | "c06" -> c06 ic
   | "c10" -> c10 ic
